@@ -5,7 +5,7 @@ CONSTANTS Tier
 VARIABLES pc, key, out
 vars == <<pc, key, out>>
 
-Families == {"s22", "s23", "s33", "kb", "off"} \cup (IF Tier = "quick" THEN {} ELSE {"s34"})    \* kb3 (adaptation x baseline with 3 receptors) exceeds the 32-bit rationals of the chromatic scaling
+Families == {"s22", "s23", "s33", "kb", "off", "lbpos"} \cup (IF Tier = "quick" THEN {} ELSE {"s34"})    \* kb3 (adaptation x baseline with 3 receptors) exceeds the 32-bit rationals of the chromatic scaling
 A44 == <<<<3, 1, 0, 0>>, <<1, 3, 1, 0>>, <<0, 1, 3, 1>>, <<0, 0, 1, 3>>>>
 KPosSV(d) == KVariantsPos(d)    \* none / scalar / vector and the non-negative matrix adaptation
 SystemsOf(f) ==
@@ -14,6 +14,9 @@ SystemsOf(f) ==
     [] f = "s33" -> {Plain(A33, 4, Vec(3, 0), Vec(3, 4))}
     (* a source that is switched off (ub = 0) and whose chromaticity would be a vertex of the chromatic gamut *)
     [] f = "off" -> {Plain(A23, 4, Vec(3, 0), <<0, 4, 4>>), Plain(A23, 4, Vec(3, 0), <<4, 4, 0>>), Plain(A33, 4, Vec(3, 0), <<4, 4, 0>>)}
+    (* positive lower bounds and no baseline: A lb acts like a baseline, so corners with SEVERAL sources at their upper *)
+    (* bound are vertices of the chromatic gamut (the single-source corners do not span it)                              *)
+    [] f = "lbpos" -> {Plain(A23, 4, Vec(3, 1), Vec(3, 4)), Plain(A33, 4, Vec(3, 1), Vec(3, 4)), Plain(A23b, 4, <<2, 0, 1>>, <<4, 8, 4>>)}
     [] f = "s34" -> {Plain(A34, 4, Vec(4, 0), Vec(4, 4))}
     [] f = "s44" -> {Plain(A44, 4, Vec(4, 0), Vec(4, 4))}
     [] f = "kb" -> SysKBOf(A22, Vec(2, 0), Vec(2, 4), KPosSV(2)) \cup SysKBOf(A23, Vec(3, 0), Vec(3, 4), {k \in KPosSV(2) : k[3] <= 2})
